@@ -76,7 +76,7 @@ def _r14(ctx):
     for key, fi in sorted(prog.functions.items()):
         if fi.module.name != "pylife.materiallaws.woehlercurve" or fi.parent is not None:
             continue
-        hits = units.dimensionful_power_bases(fi.node, ("TN", "TS"))
+        hits = units.dimensionful_power_bases(fi.node, ("SD", "ND", "load", "cycles"))
         for node, base, expo in hits:
             n += 1
             ctx.violated(fi, node, "%s raises %s - a quantity with a unit - to the power %s: for loads in Pa and a steep second slope the power "
